@@ -704,7 +704,7 @@ def all_cases(ctx):
         for quad in quads:
             rd = {"kind": "dih", "mol": name, "quad": list(quad)}
             yield "dihedral", ("dih", name, quad), rd, (lambda name=name, m=m, quad=quad: run_dihedral_case(ml, name, m, quad))
-            tg = targets if ctx.thorough else [targets[(sum(quad) + k) % len(targets)] for k in range(2)]
+            tg = targets if ctx.thorough else [targets[(sum(quad) + k) % len(targets)] for k in range(2 if m.n_atoms < 25 else 1)]
             for p, q in tg:
                 rd = {"kind": "rotdih", "mol": name, "quad": list(quad), "p": p, "q": q}
                 yield "rotate_dihedral", ("rotdih", name, quad, p, q), rd, (lambda name=name, m=m, quad=quad, p=p, q=q: run_rotdih(ml, name, m, quad, p, q))
